@@ -491,7 +491,11 @@ def _helper_candidates(repo: Repo, prot: set):
             neg = False
             if isinstance(st, ast.UnaryOp) and isinstance(st.op, ast.Not) and isinstance(getattr(st, "_parent", None), (ast.If,)) and st._parent.test is st:
                 neg, outer, st = True, st, st._parent
-            if isinstance(st, ast.Expr) and st.value is outer:
+            single_expr = len(body) == 1 and isinstance(body[0], ast.Return) and body[0].value is not None and not awaited
+            if single_expr:
+                shape = "inline-expr"      # `return <expr>` helpers can be substituted at any position of an expression
+                st = outer
+            elif isinstance(st, ast.Expr) and st.value is outer:
                 shape = "expr"
             elif isinstance(st, ast.Assign) and st.value is outer and len(st.targets) == 1:
                 shape = "assign"
@@ -577,7 +581,7 @@ def inline_fresh_helpers(repo: Repo, max_inlines: int = 200) -> list[str]:
             if not ok_all or not all(_simple_arg(v) for v in mapping.values()) or (stored & set(mapping)):
                 ok_all = False
                 break
-            if shape in ("assign", "return", "test") and not any(r.value is not None for r in rets):
+            if shape in ("assign", "return", "test", "inline-expr") and not any(r.value is not None for r in rets):
                 ok_all = False
                 break
             bindings.append(mapping)
@@ -585,6 +589,24 @@ def inline_fresh_helpers(repo: Repo, max_inlines: int = 200) -> list[str]:
             prot.add(name)     # not inlinable: do not look at it again
             continue
         for (caller, call, st, shape, awaited), mapping in zip(plans, bindings):
+            if shape == "inline-expr":
+                expr = _ParamSubst(mapping, {}).visit(clone(body[0].value))
+                holder = getattr(call, "_parent", None)
+                replaced = False
+                for f_, val in ast.iter_fields(holder) if holder is not None else []:
+                    if val is call:
+                        setattr(holder, f_, ast.copy_location(expr, call))
+                        replaced = True
+                    elif isinstance(val, list) and any(y is call for y in val):
+                        val[[y is call for y in val].index(True)] = ast.copy_location(expr, call)
+                        replaced = True
+                if replaced:
+                    ast.fix_missing_locations(expr)
+                    for par_ in ast.walk(caller.node):
+                        for ch in ast.iter_child_nodes(par_):
+                            ch._parent = par_
+                    done.append(f"{f.qual} -> {caller.qual} (expression)")
+                continue
             serial += 1
             tag = f"{name.strip('_')}_{serial}"
             renames = {v: f"{v}__{tag}" for v in stored}
